@@ -146,6 +146,7 @@ Proof.
       unfold write_ok in OK. cbn [fst] in OK. destruct OK as (_&e2&He2&_&K). rewrite He in He2. inversion He2; subst e2. auto.
   - apply Same. destruct c; exact He.
   - apply Same. exact He.
+  - apply Same. exact He.
   - destruct (find_trial t (w_trials w)), (db_get t (w_db w)); apply Same; exact He.
   - destruct (find_trial t (w_trials w)) as [tr|]; [|auto].
     destruct (c_es (w_cfg w) && t_is tr TCreated && negb (t_completed tr) && negb (t_deleting tr)); [|auto].
